@@ -613,7 +613,9 @@ func (c *Client) PerformTransaction(msg *stun.Message, to net.Addr, ignoreResult
 		IgnoreResult: ignoreResult,
 	})
 
-	c.trMap.Insert(trKey, tr)
+	if !c.trMap.Insert(trKey, tr) {
+		return client.TransactionResult{}, fmt.Errorf("%w: %s", errTransactionIDInUse, trKey)
+	}
 
 	c.log.Tracef("Start %s transaction %s to %s", msg.Type, trKey, tr.To)
 	_, err := c.conn.WriteTo(tr.Raw, to)
